@@ -73,10 +73,11 @@ type genKnobs struct {
 	Invalid                       bool // dangling references, missing tuplesets
 	JSONOnly                      bool // `this` in arbitrary positions / repeated
 	Modular                       bool
+	MaxDirect                     int // restrictions per direct assignment list (default 3)
 }
 
 var (
-	termNames = []string{"user", "employee", "users", "device", "type"}
+	termNames = []string{"user", "employee", "users", "device", "type", "bot", "u0", "u1"}
 	objNames  = []string{"doc", "docs", "folder", "group", "org", "relation", "team"}
 	relPool   = []string{"a", "b", "c", "member", "viewer", "view", "owner", "define", "ab"}
 	tsNames   = []string{"parent", "p", "from"}
@@ -85,7 +86,7 @@ var (
 
 func drawKnobs(r *rng) genKnobs {
 	k := genKnobs{
-		NTerm:    1 + r.intn(3),
+		NTerm:    []int{1, 2, 3, 1, 2, 3, 5, 7}[r.intn(8)],
 		NObj:     1 + r.intn(4),
 		MaxRel:   1 + r.intn(5),
 		MaxDepth: r.intn(4),
@@ -201,7 +202,11 @@ func genModel(r *rng, k genKnobs) *Model {
 			}
 			n := 1
 			if !under || k.MultiEdge {
-				n = 1 + r.intn(3)
+				md := k.MaxDirect
+				if md == 0 {
+					md = 3
+				}
+				n = 1 + r.intn(md)
 			}
 			for i := 0; i < n; i++ {
 				var ref Ref
@@ -395,4 +400,77 @@ func (m *Model) describe() string {
 		}
 	}
 	return s
+}
+
+// genWildcardLattice: a layered model in which wildcard lists of different
+// lengths are shared by several parents through computed references, usersets
+// and TTUs (C11: "wildcard restrictions placed anywhere"; lists of 3, 5-7
+// entries are where slices shared between nodes and edges have spare capacity).
+func genWildcardLattice(r *rng) *Model {
+	m := &Model{Schema: "1.1"}
+	nt := 4 + r.intn(5)
+	var terms []string
+	for i := 0; i < nt; i++ {
+		n := fmt.Sprintf("u%d", i)
+		terms = append(terms, n)
+		m.Types = append(m.Types, &Type{Name: n})
+	}
+	doc := &Type{Name: "doc"}
+	m.Types = append(m.Types, doc)
+	doc.Relations = append(doc.Relations, &Relation{Name: "parent", Expr: &Expr{Kind: KThis}, Direct: []Ref{{Type: "doc"}}})
+	var names []string
+	direct := func() []Ref {
+		n := 1 + r.intn(5)
+		var out []Ref
+		for _, i := range r.perm(len(terms)) {
+			if len(out) >= n {
+				break
+			}
+			out = append(out, Ref{Type: terms[i], Wild: r.chance(85)})
+		}
+		return out
+	}
+	nb := 2 + r.intn(3)
+	for i := 0; i < nb; i++ {
+		name := fmt.Sprintf("b%d", i)
+		doc.Relations = append(doc.Relations, &Relation{Name: name, Expr: &Expr{Kind: KThis}, Direct: direct()})
+		names = append(names, name)
+	}
+	nl := 3 + r.intn(5)
+	for i := 0; i < nl; i++ {
+		name := fmt.Sprintf("m%d", i)
+		rel := &Relation{Name: name}
+		e := &Expr{Kind: KUnion}
+		if r.chance(25) {
+			e.Children = append(e.Children, &Expr{Kind: KThis})
+			rel.Direct = direct()
+			if r.chance(30) {
+				rel.Direct = append(rel.Direct, Ref{Type: "doc", Rel: names[r.intn(len(names))]})
+			}
+		}
+		nc := 2 + r.intn(2)
+		for _, j := range r.perm(len(names)) {
+			if nc == 0 {
+				break
+			}
+			nc--
+			switch {
+			case r.chance(12):
+				e.Children = append(e.Children, &Expr{Kind: KTTU, Rel: names[j], Tupleset: "parent"})
+			default:
+				e.Children = append(e.Children, &Expr{Kind: KComputed, Rel: names[j]})
+			}
+		}
+		if r.chance(10) && len(e.Children) >= 2 {
+			e.Kind = KExcl
+			e.Children = e.Children[:2]
+		}
+		if len(e.Children) == 1 {
+			e = e.Children[0]
+		}
+		rel.Expr = e
+		doc.Relations = append(doc.Relations, rel)
+		names = append(names, name)
+	}
+	return m
 }
